@@ -429,6 +429,20 @@ func init() {
 		}
 		return s
 	}
+	handlers["DECNIL"] = func(a []string) string {
+		// decode.Decode(nil, src): no destination, the stream is validated all the same
+		b := hexarg(a[0])
+		out := ""
+		func() {
+			defer func() {
+				if x := recover(); x != nil {
+					out = "PANIC"
+				}
+			}()
+			out = decOutcome(decode.Decode(nil, b))
+		}()
+		return out
+	}
 	handlers["DVB"] = func(a []string) string {
 		vb, err := decode.DecodeViewBox(hexarg(a[0]))
 		if err != nil {
